@@ -29,6 +29,8 @@ def prefix_siblings(rng):
     # names that differ in case only are different names (file beside file, folder beside folder with a history)
     inner["Take.mov"] = {"f": "6161"}
     inner["take.mov"] = {"f": "6262"}
+    inner["._Take.mov"] = {"f": "6363"}          # named like an AppleDouble companion: an entry like any other
+    inner["._orphan"] = {"f": ""}
     other_case = base.swapcase() if base.swapcase() != base else base + "_"
     tree = {base: {"d": inner},
             other_case: {"d": {"c0.mov": {"f": "7a7a"}, "Sub": {"d": {"x": {"f": "01"}}}, "sub": {"d": {"x": {"f": "02"}}}}},
